@@ -56,13 +56,16 @@ Definition dec_tbl (decin : stream) (t : list (N * dres)) (c : codec) (s : strea
 Inductive vcase :=
 (* end-to-end, full bytes *)
 | EC (type : string) (level : Z) (hdr : option string) (ce raw : list string) (body : option bytes) (chunked rerr cerr : bool)
-     (max : Z) (algs : option (list string)) (custom : list (string * option N))
+     (max : Z) (algs : option (list string)) (custom : list (string * option N)) (mw : nat)
      (enc : list ((N * Z) * bytes)) (decin : stream) (dect : list (N * dres))
      (* observed: client (0 sent / 1 configuration refused / 2 RoundTrip error, nothing sent); wire
         header values and body; server outcome (0 handler ran / 1 rejected / 2 panicked), status,
         and what the handler saw *)
      (o_client : N) (o_wce : list string) (o_wbody : bytes) (o_wcl : Z) (o_wrw : option bytes)
      (o_kind : N) (o_status : Z) (o_hce : list string) (o_cl : Z) (o_data : bytes) (o_err : N)
+     (* every handler behind the decompressor in the order it ran: (tag, what it was given);
+        tag i = configured middleware i, 0 = the innermost handler *)
+     (o_views : list (N * view))
 (* server only, sizes only (large bodies) *)
 | LC (max : Z) (algs : option (list string)) (custom : list (string * option N))
      (ce : list string) (n cl : Z) (ldect : list (N * ldres))
@@ -99,7 +102,7 @@ Definition ldec_tbl (t : list (N * ldres)) (c : codec) : ldres :=
 (* the model's answer for a case: the wire request (None = configuration refused) and the outcome *)
 Definition model_wire (c : vcase) : cres :=
   match c with
-  | EC type level hdr ce raw body chunked rerr cerr _ _ _ enc _ _ _ _ _ _ _ _ _ _ _ _ _ =>
+  | EC type level hdr ce raw body chunked rerr cerr _ _ _ _ enc _ _ _ _ _ _ _ _ _ _ _ _ _ _ =>
       client (enc_tbl (body_bytes body) enc) {| c_type := type; c_level := level; c_hdr := hdr |}
              {| q_ce := ce; q_body := body; q_raw := raw; q_stream := chunked; q_rerr := rerr; q_cerr := cerr |}
   | LC _ _ _ _ _ _ _ _ _ _ _ _ _ => CRefused
@@ -108,27 +111,45 @@ Definition model_wire (c : vcase) : cres :=
 (* (client outcome, wire) , server observable *)
 Definition model_out (c : vcase) : (N * option (list string * bytes * Z * option bytes)) * (obs + lobs) :=
   match c with
-  | EC type level hdr ce raw body chunked rerr cerr max algs custom enc decin dect _ _ _ _ _ _ _ _ _ _ _ =>
-      let sc := {| s_max := max; s_algs := algs; s_custom := custom |} in
+  | EC type level hdr ce raw body chunked rerr cerr max algs custom mw enc decin dect _ _ _ _ _ _ _ _ _ _ _ _ =>
+      let sc := {| s_max := max; s_algs := algs; s_custom := custom; s_mw := mw |} in
       match model_wire c with
       | CRefused => ((1%N, None), inl (obs_of Panicked))
       | CError => ((2%N, None), inl (obs_of Panicked))
       | CSent w => ((0%N, Some (w.(w_ce), w.(w_body), w.(w_cl), w.(w_rewind))), inl (obs_of (server (dec_tbl decin dect) cdec_fixed sc w)))
       end
   | LC max algs custom ce n cl ldect _ _ _ _ _ _ =>
-      let sc := {| s_max := max; s_algs := algs; s_custom := custom |} in
+      let sc := {| s_max := max; s_algs := algs; s_custom := custom; s_mw := 0 |} in
       ((0%N, None), inr (lobs_of (lserver sc (ldec_tbl ldect) (lcdec_fixed (lmax_bytes (eff_max sc) (n, E_EOF))) ce n cl)))
   end.
 
+(* the handlers behind the decompressor, in the order they run, with what each is given *)
+Definition model_views (c : vcase) : list (N * view) :=
+  match c with
+  | EC type level hdr ce raw body chunked rerr cerr max algs custom mw enc decin dect _ _ _ _ _ _ _ _ _ _ _ _ =>
+      let sc := {| s_max := max; s_algs := algs; s_custom := custom; s_mw := mw |} in
+      match model_wire c with
+      | CSent w => server_views (dec_tbl decin dect) cdec_fixed sc w
+      | _ => []
+      end
+  | _ => []
+  end.
+
+Definition view_eqb (a b : N * view) : bool :=
+  let '(i1, (ce1, cl1, s1)) := a in
+  let '(i2, (ce2, cl2, s2)) := b in
+  N.eqb i1 i2 && strs_eqb ce1 ce2 && Z.eqb cl1 cl2 && stream_eqb s1 s2.
+
 Definition check_case (c : vcase) : bool :=
   match c with
-  | EC _ _ _ _ _ _ _ _ _ _ _ _ _ _ _ o_client o_wce o_wbody o_wcl o_wrw o_kind o_status o_hce o_cl o_data o_err =>
+  | EC _ _ _ _ _ _ _ _ _ _ _ _ _ _ _ _ o_client o_wce o_wbody o_wcl o_wrw o_kind o_status o_hce o_cl o_data o_err o_views =>
       match model_out c with
       | ((k, None), _) => N.eqb k o_client && negb (N.eqb o_client 0)
       | ((k, Some (wce, wbody, wcl, wrw)), inl o) =>
           N.eqb k o_client && strs_eqb wce o_wce && bytes_eqb wbody o_wbody && Z.eqb wcl o_wcl
           && option_eqb bytes_eqb wrw o_wrw
           && obs_eqb o (o_kind, o_status, o_hce, o_cl, o_data, o_err)
+          && list_eqb view_eqb (model_views c) o_views
       | _ => false
       end
   | LC _ _ _ _ _ _ _ o_kind o_status o_hce o_cl o_len o_err =>
